@@ -1,5 +1,7 @@
 //! `mc` — bounded-exhaustive model checking of toml-rs/toml.  One subcommand per property.
 mod c03;
+mod c04;
+mod c05;
 mod c10;
 mod c11;
 mod c12;
@@ -23,6 +25,14 @@ fn main() {
     common::quiet_panics();
     let prop = args[1].as_str();
     common::init_known(prop);
+    if prop == "C04-growth-worker" {
+        let tier = if args[2] == "thorough" { Tier::Thorough } else { Tier::Quick };
+        std::process::exit(c04::growth_worker(tier, args[3].parse().unwrap(), args[4].parse().unwrap()));
+    }
+    if prop == "C05-worker" {
+        let tier = if args[2] == "thorough" { Tier::Thorough } else { Tier::Quick };
+        std::process::exit(c05::worker(tier, args[3].parse().unwrap(), args[4].parse().unwrap(), args[5].parse().unwrap()));
+    }
     if prop == "audit" {
         std::process::exit(c_docs::audit_model());
     }
@@ -32,6 +42,8 @@ fn main() {
             "C01" | "C02" | "C09" => c_docs::replay(prop, path),
             "C03" => c03::replay(path),
             "C14" => c14::replay(path),
+            "C05" => c05::replay(path),
+            "C04" => c04::replay(path),
             "C12" => c12::replay(path),
             "C11" => c11::replay(path),
             "C10" => c10::replay(path),
@@ -61,6 +73,8 @@ fn main() {
         "C09" => c_docs::c09(tier),
         "C03" => c03::c03(tier),
         "C14" => c14::c14(tier),
+        "C05" => c05::c05(tier),
+        "C04" => c04::c04(tier),
         "C12" => c12::c12(tier),
         "C11" => c11::c11(tier),
         "C10" => c10::c10(tier),
